@@ -63,20 +63,28 @@ func check(args []string) int {
 	run.Count("functions", prog.NumFuncs)
 	run.Note("analysed %s (GOOS=linux GOARCH=%s), %d packages, %d functions with bodies", prog.Dir, prog.Arch, len(prog.Pkgs), prog.NumFuncs)
 	ctx := &rules.Ctx{P: prog, R: run, Tier: *tier}
-	code := func() (code int) {
-		defer func() {
-			if r := recover(); r != nil {
-				fmt.Printf("INFRA analyser panic: %v\n%s\n", r, debug.Stack())
-				code = 2
-			}
-		}()
-		for _, f := range fns {
+	// A rule function that panics on an idiom it does not understand must not take the verdict down with it: the
+	// panic becomes an undecided obligation (the check fails, naming the rule function), the other rules still run.
+	for i, f := range fns {
+		func() {
+			defer func() {
+				if r := recover(); r != nil {
+					st := string(debug.Stack())
+					where := ""
+					for _, ln := range strings.Split(st, "\n") {
+						if strings.Contains(ln, "/internal/rules/") || strings.Contains(ln, "/internal/sym/") || strings.Contains(ln, "/internal/poly/") {
+							where = strings.TrimSpace(ln)
+							break
+						}
+					}
+					fmt.Printf("   analyser panic in rule function %d of %s: %v at %s\n", i, *prop, r, where)
+					run.Only()
+					run.Rule(*prop+".analysis", "every rule function of the property runs to completion on this tree", 0)
+					run.Unknown(fmt.Sprintf("rule-function-%d#panic", i), where, fmt.Sprintf("the analyser panicked (%v): the code uses a shape this rule does not handle; no verdict", r))
+				}
+			}()
 			f(ctx)
-		}
-		return -1
-	}()
-	if code == 2 {
-		return 2
+		}()
 	}
 	return run.Finish(*verif)
 }
